@@ -63,6 +63,7 @@ def concept_case(out: Outcome, rng, cls: str, lines, expect) -> None:
     rep = {"class": cls, "params": p, "stream": xs, "resets": resets}
     n_since = 0
     last_logs = None
+    full_updates, touched = 0, False
     for t, x in enumerate(xs):
         if t in resets:
             with_cb.reset()
@@ -82,13 +83,18 @@ def concept_case(out: Outcome, rng, cls: str, lines, expect) -> None:
         s2 = np.random.get_state()
         np.random.set_state(s1)
         plain.update(value=x)
+        s3 = np.random.get_state()
         np.random.set_state(s2)
+        if cls == "KSWIN" and len(plain.window) >= plain.config.min_num_instances:
+            # has EITHER twin moved NumPy's global generator in an update with a full window?  Only a detector that never does draws from a generator of its own
+            full_updates += 1
+            touched = touched or any(not (s1[0] == s[0] and s1[2:] == s[2:] and bool(np.array_equal(s1[1], s[1]))) for s in (s2, s3))
         n_since += 1
         if dets.obs(cls, with_cb) != dets.obs(cls, plain):
             # the twins are fed from EQUAL states of NumPy's global generator; a KSWIN whose update leaves that generator where it was draws its sample elsewhere
             # (its own generator): the twins are then not comparable this way - a broken assumption of this check, not a verdict
-            same_state = s1[0] == s2[0] and s1[2:] == s2[2:] and bool(np.array_equal(s1[1], s2[1]))
-            (out.mismatch if (cls == "KSWIN" and same_state) else out.violation)(
+            own = cls == "KSWIN" and full_updates > 0 and not touched
+            (out.mismatch if own else out.violation)(
                 f"{cls}: attaching the history callback changes the detector's output at update {t + 1}", {**rep, "step": t + 1})
             return
         h = cb.history
